@@ -88,3 +88,45 @@ def native_cond(fun, how):
             return True, {"raised_on_float_tensors": repr(e), "how": how}
         return (not ok), {"observed_on_float_tensors": detail, "how": how}
     return f
+
+
+def coef_max(arr):
+    """largest coefficient modulus over the entries of an object array of polynomials"""
+    m = 0.0
+    for x in np.asarray(arr, dtype=object).reshape(-1):
+        for re, im in Poly.coerce(x).t.values():
+            m = max(m, abs(complex(re, im)))
+    return m
+
+
+def decide_close(run, oid, fn, lhs, rhs, case, rel=1e-13, numeric_replay=None, fields=None):
+    """identity of polynomials up to rounding of *constants of the code* (scheme coefficients such as 1/6 written as floats): every coefficient of
+    lhs - rhs is at most rel x the largest coefficient of rhs.  Still a statement about all values of the indeterminates."""
+    t0 = time.time()
+    try:
+        la, ra = np.asarray(lhs, dtype=object), np.asarray(rhs, dtype=object)
+        if la.shape != ra.shape:
+            ok, worst, scale = False, float("inf"), coef_max(ra)
+        else:
+            scale = max(coef_max(ra), 1e-300)
+            worst = coef_max(la - ra)
+            ok = worst <= rel * scale
+    except Exception as e:
+        run.oblig(oid, fn, "S(symx)", "undecided", "polynomial normal form, coefficientwise", time.time() - t0, detail=f"{type(e).__name__}: {e}")
+        return None
+    dt = time.time() - t0
+    if ok:
+        run.oblig(oid, fn, "S(symx)", "discharged", "polynomial normal form, coefficientwise", dt)
+        return True
+    run.oblig(oid, fn, "S(symx)", "violated", "polynomial normal form, coefficientwise", dt)
+    native, fired = None, False
+    if numeric_replay is not None:
+        try:
+            fired, native = numeric_replay()
+        except Exception as e:
+            native = f"numeric replay raised {e!r}"
+    f = {"obligation": oid}
+    f.update(fields or {})
+    run.violation(oid, fn, f"symbolic identity refuted: a coefficient of the difference polynomial is {worst:.3e} (scale {scale:.3e})", fields=f,
+                  replay={"case": case, "largest_coefficient_of_difference": worst, "scale": scale, "native_numeric_replay": native}, no_input=not fired, engine="S(symx)")
+    return False
